@@ -33,6 +33,7 @@ pub struct Ctx {
     pub other_prop: u64,
     pub other_prop_samples: Vec<J>,
     pub deviations: u64,
+    pub diag_checked: u64,
     pub deviation_samples: Vec<J>,
     pub model_dev: u64,
     pub model_dev_samples: Vec<J>,
@@ -81,6 +82,7 @@ impl Ctx {
             other_prop: 0,
             other_prop_samples: vec![],
             deviations: 0,
+            diag_checked: 0,
             deviation_samples: vec![],
             model_dev: 0,
             model_dev_samples: vec![],
@@ -165,6 +167,7 @@ impl Ctx {
             "violations": self.violations, "violation_files": self.violation_files,
             "known_hits": self.known_hits.iter().map(|(t, n)| json!({"finding": t, "count": n})).collect::<Vec<_>>(),
             "other_property_mismatches": self.other_prop, "other_property_samples": self.other_prop_samples,
+            "diagnostics_compared": self.diag_checked,
             "unattributed_deviation": self.deviations, "deviation_samples": self.deviation_samples,
             "parser_model_deviation": self.model_dev, "parser_model_samples": self.model_dev_samples,
             "harness_errors": self.harness_errors, "harness_error_samples": self.harness_error_samples,
@@ -182,7 +185,10 @@ fn main_prop(v: &J) -> String {
 fn dec_obs(d: &Dec) -> J {
     match d {
         Dec::Ok(_, j) => json!({"kind": "ok", "val": j}),
-        Dec::Err(k) => json!({"kind": "err", "err": k}),
+        Dec::Err(k) => {
+            let (disp, dbg) = crate::machine::last_text();
+            json!({"kind": "err", "err": k, "diag": if *k == "UnexpectedItem" { crate::machine::last_diag() } else { json!([]) }, "display": disp, "debug": dbg})
+        }
         Dec::Harness(m) => json!({"kind": "harness", "err": m}),
     }
 }
@@ -231,6 +237,26 @@ fn judge_decode(ctx: &mut Ctx, v: &J, api: &str, obs: &J) {
     } else {
         let want = ex["err"].as_str().unwrap_or("");
         let got = obs["err"].as_str().unwrap_or("");
+        // the (got, want) diagnostic of an UnexpectedItem: behaviour of the crate that no property pins -> deviation only
+        if want == "UnexpectedItem" && got == want {
+            if let (Some(wd), Some(gd)) = (ex["diag"].as_array(), obs["diag"].as_array()) {
+                if !wd.is_empty() {
+                    ctx.diag_checked += 1;
+                    if wd != gd {
+                        ctx.deviation("diagnostic", json!({"want": wd, "got": gd, "ty": v["ty"]}));
+                    }
+                }
+            }
+        }
+        // Display / Debug text of the error, where the specification models it (same kind on both sides)
+        if let Some(wt) = ex["text"].as_str() {
+            if !wt.is_empty() && want == got {
+                ctx.diag_checked += 1;
+                if obs["display"].as_str() != Some(wt) || obs["debug"].as_str() != Some(wt) {
+                    ctx.deviation("error-text", json!({"want": wt, "display": obs["display"], "debug": obs["debug"]}));
+                }
+            }
+        }
         if !want.is_empty() && want != "GAP" && want != got {
             if ex["pinerr"].as_bool().unwrap_or(false) {
                 let ep = ex["errprop"].as_str().map(String::from).unwrap_or(prop);
